@@ -29,7 +29,7 @@ CHECKS = {
         note="Trusted: TLC, vloop, recorder, the yield-point instrumentation of harness/flagrace.py (property/deque subclasses on the harness side). Thread interleavings at yield-point granularity, not bytecode granularity."),
     "C15": dict(
         technique="TLA+ actor layer (spec/SCActors.tla: spawn with explicit/automatic ids and systemIds incl. reuse, target resolution order, sendTo/forwardTo/sendParent/escalate, delayed sends + cancel, stopChild/stop, grandchildren) model-checked with TLC (exhaustive to a depth + simulation deeper); every explored behaviour executed on the real async engine under virtual time with the complete abstract actor state compared after each step",
-        text="Prop C15 on every explored step: exactly one started child per spawn registered under id and systemId; each sent event delivered exactly once to exactly the addressed actor in sending order or dropped when unresolvable/ambiguous; cancel(id) removes that pending delayed send only; stopChild/stop remove the child and all descendants from children map and system registry and nothing is received or emitted afterwards. All operation sequences over a fixed driver machine/op table up to a depth bound, every edge replayed on the real engine (running actors, children maps, registry, per-actor received events in order, pending delayed sends compared).",
+        text="Prop C15 on every explored step: exactly one started child per spawn registered under id and systemId; each sent event delivered exactly once to exactly the addressed actor in sending order or dropped when unresolvable/ambiguous; cancel(id) removes that pending delayed send only; stopChild/stop remove the child and all descendants - also below a child that has already completed - from children map and system registry and nothing is received or emitted afterwards. All operation sequences over a fixed driver machine/op table up to a depth bound, every edge replayed on the real engine (running actors, children maps, registry, per-actor received events in order, pending delayed sends compared).",
         design="DESIGN.md section 8 C15",
         note="Trusted: TLC, vloop, the driver machine and child templates of harness/actors.py. Async engine only (thread-backed sync children are not driven). A divergence between model and code on the compared abstract state is reported as a violation of C15, since the model's step is the property's demanded outcome."),
     "C05": dict(
@@ -42,7 +42,7 @@ CHECKS = {
         design="DESIGN.md section 8 C06"),
     "C12": dict(
         technique="TLC-explored crash points (every reachable state) x continuations (every edge); snapshot -> from_snapshot on real interpreters, original vs restored vs model; TLC-enumerated snapshot corruption cases",
-        text="Every reachable quiescent state of the TLC model is a crash/resume point and every outgoing state-changing edge a continuation: the real interpreter is snapshotted there (valid JSON), restored with from_snapshot (+start on the async engine), and the same step is performed on original and restored interpreter, which must agree with each other (configuration, history, context, status, output, error flag, ordered actions); re-snapshotting reproduces the snapshot and an earlier snapshot is unaffected by later execution. spec/SnapCases.tla enumerates every single-point corruption with the demanded verdict; each is applied to the real from_snapshot on both engines.",
+        text="Every reachable quiescent state of the TLC model is a crash/resume point and every outgoing state-changing edge a continuation: the real interpreter is snapshotted there (valid JSON), restored with from_snapshot (+start on the async engine), and the same step is performed on original and restored interpreter, which must agree with each other (configuration, history, context, status, output, error flag, ordered actions); re-snapshotting reproduces the snapshot and an earlier snapshot is unaffected by later execution (a nested context value is updated in place after the snapshot). spec/SnapCases.tla enumerates every single-point corruption with the demanded verdict; each is applied to the real from_snapshot on both engines.",
         design="DESIGN.md section 8 C12",
         note="Trusted: TLC, exporter, recorder. Child actors in snapshots are not covered by this check. Pending timers / in-flight services are excepted by the property."),
     "C17": dict(
